@@ -1,7 +1,8 @@
 ----------------------------- MODULE MCDecoder -----------------------------
 (***************************************************************************)
 (* Model-checking root for the decoder (C03, and the decode half of C01,   *)
-(* C02, C19).  The state is the decoder's whole state (buf, off, mode);    *)
+(* C02, C19).  The state is the decoder's whole state (buf, off, mode, and *)
+(* the key DecodeTag read last, which Skip consults);                      *)
 (* steps are those of the implementation-shaped model DecoderImpl.  Since  *)
 (* Seek reaches every offset, the reachable states are all triples of the  *)
 (* bounded domain, and the invariant Refines - evaluated in every state    *)
@@ -16,8 +17,8 @@ CONSTANTS Alphabet,     \* wire-significant byte values
           MaxLen,       \* all byte strings over Alphabet up to this length
           UseStructured \* add the structured family (huge declared lengths, 9/10/11-byte varints)
 
-VARIABLES buf, off, mode
-vars == <<buf, off, mode>>
+VARIABLES buf, off, mode, lt
+vars == <<buf, off, mode, lt>>
 
 Rep(x, n) == [i \in 1..n |-> x]
 
@@ -55,14 +56,15 @@ ImplNested(b, p, fail) ==
 
 Outcome(b, p, m, c) ==
   IF c.op = "Nested" THEN ImplNested(b, p, c.i1) @@ [alloc |-> 0]
-  ELSE ImplStep(b, p, m, c.op, c) @@ [alloc |-> 0, cnt |-> 0, sb |-> <<>>, same |-> 0]
+  ELSE ImplStep(b, p, m, c.op, c @@ [lt |-> lt]) @@ [alloc |-> 0, cnt |-> 0, sb |-> <<>>, same |-> 0]
 
-Init == buf \in Bufs /\ off = 0 /\ mode = ModeSafe
+Init == buf \in Bufs /\ off = 0 /\ mode = ModeSafe /\ lt = NoTag
 
 Next == \E c \in Calls(buf) :
           LET o == Outcome(buf, off, mode, c) IN
           /\ off' = o.off
           /\ mode' = IF c.op = "SetMode" THEN c.i1 ELSE mode
+          /\ lt' = NextTag(lt, off, c.op, o)
           /\ UNCHANGED buf
 
 Spec == Init /\ [][Next]_vars
